@@ -638,6 +638,19 @@ def oracle(e):
   return None
 
 
+def failure_kind(failed, bundle):
+  """failed: False, or the traceback of the exception the bundle raised."""
+  if not failed:
+    return 'schema-mismatch'
+  if '_undo_to_checkpoint' in failed:
+    # the revert itself raised: the document is left half rolled back
+    names = [a[0] for a in bundle]
+    if 'RenameTable' in names or any(a[0] in ('UpdateRecord', 'BulkUpdateRecord') and a[1] == '_grist_Tables' for a in bundle):
+      return 'rollback-raised-after-failed-table-rename'
+    return 'rollback-raised'
+  return 'schema-mismatch-after-failure'
+
+
 def run_history(seed, nb, on_group=None, on_bundle=None, undo=True):
   """One history on a fresh document.  on_group(group) for every recorded user action, on_bundle(e, history, bundle,
   failed) after every bundle (also failed ones, also the undo and redo bundles)."""
@@ -655,9 +668,9 @@ def run_history(seed, nb, on_group=None, on_bundle=None, undo=True):
         out = Gm.apply(e, bundle)
         failed = False
       except Exception:
-        out, failed = None, True
+        out, failed = None, traceback.format_exc()
       for g in rec.take(e):
-        g['failed'] = failed
+        g['failed'] = bool(failed)
         if on_group:
           on_group(g, history, bundle)
       if on_bundle:
@@ -733,7 +746,7 @@ def correspond(ctx):
     binfo.append((trows, crows_float))
     ctx.count(('build', trows, crows_float), nontrivial=len(crows) > 0, kind='build:' + origin +
               (':KeyError' if out is None else ''))
-  for _ in range(ctx.n(300, 3000)):
+  for _ in range(ctx.n(200, 3000)):
     t, c = random_meta(ctx.rng)
     add_build(t, c, 'random')
   # (b) trace tie
@@ -763,7 +776,7 @@ def correspond(ctx):
     d = oracle(e)
     ctx.count(('bundle', len(history), repr(bundle)), nontrivial=True, kind='oracle:' + ('failed' if failed else 'ok'))
     if d:
-      found.append(('schema-mismatch-after-failure' if failed else 'schema-mismatch', d,
+      found.append((failure_kind(failed, bundle), d,
                     {'history': copy.deepcopy(history), 'bundle': copy.deepcopy(bundle)}))
       raise StopHistory()
     if ctx.rng.random() < 0.3:
@@ -774,7 +787,7 @@ def correspond(ctx):
                 c.columns['type'][i], bool(c.columns['isFormula'][i]), c.columns['formula'][i],
                 int(c.columns['reverseCol'][i] or 0)) for i, rid in enumerate(c.row_ids)]
       add_build(trows, crows, 'real')
-  nh, nb = ctx.n(12, 300), ctx.n(10, 14)
+  nh, nb = ctx.n(10, 300), ctx.n(10, 14)
   stats = collections.Counter()
   for i in range(nh):
     try:
@@ -877,7 +890,7 @@ def search(ctx):
       d = oracle(e)
       ctx.count(('bundle', len(history), repr(bundle)), nontrivial=True, kind='oracle:' + ('failed' if failed else 'ok'))
       if d:
-        found.append(('schema-mismatch-after-failure' if failed else 'schema-mismatch', d,
+        found.append((failure_kind(failed, bundle), d,
                       {'history': copy.deepcopy(history), 'bundle': copy.deepcopy(bundle)}))
         raise StopHistory()
     for i in range(ctx.n(12, 300)):
@@ -892,7 +905,7 @@ def search(ctx):
                   'doc actions outside every coupled step of the model: %r' % (uncovered[:3],),
                   {'history': history, 'bundle': bundle, 'strict': True})
   # (3) record actions applied directly to the metadata tables
-  for i in range(ctx.n(6, 60)):
+  for i in range(ctx.n(4, 60)):
     rng = random.Random(ctx.seed * 104729 + i)
     gen = make_gen(rng)
     history = [[gen.gen_addtable(None)]]
